@@ -123,6 +123,7 @@ def step (st : St) (j : Json) : Json × St :=
     outState (.arr ((items b st.cur).map fun kv => Json.arr #[.str kv.1, vToJson kv.2]).toArray) st.cur
   | "as_dict" => outState (vToJson (.dct (asDict st.cur))) st.cur
   | "clone_eq" => outState (.bool (veq (.ns (clone st.cur)) (.ns st.cur))) st.cur
+  | "clone_swap" => outState .null (clone st.cur)
   | "eq" => outState (.bool (veq (.ns st.cur) (getV j "v"))) st.cur
   | "from_dict" =>
     match fromDict clash (strItems (getV j "v")) with
